@@ -123,4 +123,6 @@ def apply(data, mut):
         return data[:mut[1]] + bytes(mut[2]) + data[mut[1] + len(mut[2]):]
     if kind == 'ext':
         return data + bytes(mut[1])
+    if kind == 'splice':
+        return data[:mut[1]] + bytes(mut[3]) + data[mut[2]:]
     raise ValueError(kind)
